@@ -799,7 +799,10 @@ func c02Muts() []c02Mut {
 		return c02Mut{name, func(s *c02State, m, honest *types.Block) bool { return f(s, m.Header, honest) }}
 	}
 	return []c02Mut{
-		hdr("ParentHash:unknown", func(s *c02State, h *types.Header, _ *types.Block) bool { h.ParentHash = c02Flip(h.ParentHash); return true }),
+		hdr("ParentHash:unknown", func(s *c02State, h *types.Header, _ *types.Block) bool {
+			h.ParentHash = c02Flip(h.ParentHash)
+			return true
+		}),
 		hdr("ParentHash:grandparent", func(s *c02State, h *types.Header, honest *types.Block) bool {
 			p, err := s.n.DB.GetBlockByHash(honest.ParentHash())
 			if err != nil || p.Height() == 0 {
@@ -817,8 +820,14 @@ func c02Muts() []c02Mut {
 			}
 			return false
 		}),
-		hdr("MinerAddress:outsider", func(s *c02State, h *types.Header, _ *types.Block) bool { h.MinerAddress = keyAddr(s.outsider); return true }),
-		hdr("VersionRoot", func(s *c02State, h *types.Header, _ *types.Block) bool { h.VersionRoot = c02Flip(h.VersionRoot); return true }),
+		hdr("MinerAddress:outsider", func(s *c02State, h *types.Header, _ *types.Block) bool {
+			h.MinerAddress = keyAddr(s.outsider)
+			return true
+		}),
+		hdr("VersionRoot", func(s *c02State, h *types.Header, _ *types.Block) bool {
+			h.VersionRoot = c02Flip(h.VersionRoot)
+			return true
+		}),
 		hdr("TxRoot:flip", func(s *c02State, h *types.Header, _ *types.Block) bool { h.TxRoot = c02Flip(h.TxRoot); return true }),
 		hdr("LogRoot", func(s *c02State, h *types.Header, _ *types.Block) bool { h.LogRoot = c02Flip(h.LogRoot); return true }),
 		hdr("Height:+1", func(s *c02State, h *types.Header, _ *types.Block) bool { h.Height++; return true }),
@@ -841,7 +850,10 @@ func c02Muts() []c02Mut {
 		}),
 		hdr("Time:-1", func(s *c02State, h *types.Header, _ *types.Block) bool { h.Time--; return true }),
 		hdr("Time:+1", func(s *c02State, h *types.Header, _ *types.Block) bool { h.Time++; return true }),
-		hdr("Time:+slot", func(s *c02State, h *types.Header, _ *types.Block) bool { h.Time += uint32(s.w.Timeout / 1000); return true }),
+		hdr("Time:+slot", func(s *c02State, h *types.Header, _ *types.Block) bool {
+			h.Time += uint32(s.w.Timeout / 1000)
+			return true
+		}),
 		hdr("Time:+round", func(s *c02State, h *types.Header, _ *types.Block) bool {
 			h.Time += uint32(s.w.Timeout/1000) * uint32(len(s.w.DeputyKeys))
 			return true
@@ -862,10 +874,22 @@ func c02Muts() []c02Mut {
 			h.Time = p.Time()
 			return true
 		}),
-		hdr("Time:now+1", func(s *c02State, h *types.Header, _ *types.Block) bool { h.Time = uint32(time.Now().Unix()) + 1; return true }),
-		hdr("Time:now+2", func(s *c02State, h *types.Header, _ *types.Block) bool { h.Time = uint32(time.Now().Unix()) + 2; return true }),
-		hdr("Time:now", func(s *c02State, h *types.Header, _ *types.Block) bool { h.Time = uint32(time.Now().Unix()); return true }),
-		hdr("Time:now+1000", func(s *c02State, h *types.Header, _ *types.Block) bool { h.Time = uint32(time.Now().Unix()) + 1000; return true }),
+		hdr("Time:now+1", func(s *c02State, h *types.Header, _ *types.Block) bool {
+			h.Time = uint32(time.Now().Unix()) + 1
+			return true
+		}),
+		hdr("Time:now+2", func(s *c02State, h *types.Header, _ *types.Block) bool {
+			h.Time = uint32(time.Now().Unix()) + 2
+			return true
+		}),
+		hdr("Time:now", func(s *c02State, h *types.Header, _ *types.Block) bool {
+			h.Time = uint32(time.Now().Unix())
+			return true
+		}),
+		hdr("Time:now+1000", func(s *c02State, h *types.Header, _ *types.Block) bool {
+			h.Time = uint32(time.Now().Unix()) + 1000
+			return true
+		}),
 		hdr("Time:tiny", func(s *c02State, h *types.Header, _ *types.Block) bool {
 			h.Time = []uint32{0, 1, 1000, 9999999}[s.c.Rnd.Intn(4)]
 			return true
@@ -902,12 +926,16 @@ func c02Muts() []c02Mut {
 			if len(h.SignData) != 65 {
 				return false
 			}
- h.SignData = malleate(h.SignData); return true }),
+			h.SignData = malleate(h.SignData)
+			return true
+		}),
 		hdr("SignData:truncate", func(s *c02State, h *types.Header, _ *types.Block) bool {
 			if len(h.SignData) != 65 {
 				return false
 			}
- h.SignData = h.SignData[:64]; return true }),
+			h.SignData = h.SignData[:64]
+			return true
+		}),
 		hdr("SignData:empty", func(s *c02State, h *types.Header, _ *types.Block) bool { h.SignData = nil; return true }),
 		hdr("SignData:extend", func(s *c02State, h *types.Header, _ *types.Block) bool {
 			h.SignData = append(append([]byte(nil), h.SignData...), 0)
@@ -928,9 +956,18 @@ func c02Muts() []c02Mut {
 			return true
 		}),
 		hdr("Extra:changed", func(s *c02State, h *types.Header, _ *types.Block) bool { h.Extra += "x"; return true }),
-		hdr("Extra:256", func(s *c02State, h *types.Header, _ *types.Block) bool { h.Extra = strings.Repeat("e", 256); return true }),
-		hdr("Extra:257", func(s *c02State, h *types.Header, _ *types.Block) bool { h.Extra = strings.Repeat("e", 257); return true }),
-		hdr("Extra:huge", func(s *c02State, h *types.Header, _ *types.Block) bool { h.Extra = strings.Repeat("e", 5000); return true }),
+		hdr("Extra:256", func(s *c02State, h *types.Header, _ *types.Block) bool {
+			h.Extra = strings.Repeat("e", 256)
+			return true
+		}),
+		hdr("Extra:257", func(s *c02State, h *types.Header, _ *types.Block) bool {
+			h.Extra = strings.Repeat("e", 257)
+			return true
+		}),
+		hdr("Extra:huge", func(s *c02State, h *types.Header, _ *types.Block) bool {
+			h.Extra = strings.Repeat("e", 5000)
+			return true
+		}),
 		// ---- body: transactions
 		{"Txs:drop", func(s *c02State, m, _ *types.Block) bool {
 			if len(m.Txs) == 0 {
